@@ -237,7 +237,15 @@ func init() {
 					poly = append(poly, hole)
 				}
 			}
-			c14Poly(c, wn, poly, []string{"Polygon", "Geometry", "Ring", "MultiPolygon"}[c.rng.Intn(4)])
+			var more [][][2]int
+			if o2 := c14Star(c, W*c14U/2+c.rng.Intn(41)-20, W*c14U/2+c.rng.Intn(41)-20, []int{20, 40, 60}[c.rng.Intn(3)], step, 3+c.rng.Intn(5)); o2 != nil {
+				more = [][][2]int{o2} // overlapping or nested second member (used by the MultiPolygon entry only)
+			}
+			if more != nil {
+				c14Poly(c, wn, poly, []string{"Polygon", "Geometry", "Ring", "MultiPolygon", "MultiPolygon"}[c.rng.Intn(5)], more)
+			} else {
+				c14Poly(c, wn, poly, []string{"Polygon", "Geometry", "Ring", "MultiPolygon"}[c.rng.Intn(4)])
+			}
 		}
 		// (2b) polygons of many tiles with a small hole somewhere inside (a hole that fits in one tile row, while the
 		// outer ring spans several), in a 9x9 window; vertices sometimes repeated in a row, also the closing one
@@ -299,7 +307,11 @@ func init() {
 					poly[ri] = r
 				}
 			}
-			c14Poly(c, wn, poly, []string{"Polygon", "Geometry", "MultiPolygon"}[c.rng.Intn(3)])
+			if inner := c14Star(c, cx+c.rng.Intn(31)-15, cy+c.rng.Intn(31)-15, 30+c.rng.Intn(60), step, 3+c.rng.Intn(5)); inner != nil && c.rng.Intn(2) == 0 {
+				c14Poly(c, wn, poly, "MultiPolygon", [][][2]int{inner}, [][][2]int{outer}) // nested member and a duplicate of the outer ring
+			} else {
+				c14Poly(c, wn, poly, []string{"Polygon", "Geometry", "MultiPolygon"}[c.rng.Intn(3)])
+			}
 		}
 		// (2d) rings that start and end on a tile-row edge with an exact latitude (the equator), closing vertex
 		// doubled in half of the cases, the last edge arriving from either side
@@ -377,13 +389,67 @@ func init() {
 			}
 			c14Line(c, wn, [][][2]int{pth}, []string{"LineString", "Geometry", "MultiLineString"}[c.rng.Intn(3)])
 		}
+		// (2e) tilecover.Bound: every tile between the tiles of the two corners; corners close to tile edges at deep zooms
+		for i := 0; i < c.pick(800, 12000); i++ {
+			z := uint32(3 + c.rng.Intn(20))
+			if i%3 == 0 {
+				z = uint32(19 + c.rng.Intn(4))
+			}
+			maxt := 1 << z
+			wn := c14Win{z: z, bx: c.rng.Intn(maxt - 3), by: 1 + c.rng.Intn(maxt-4), w: 3, u: 8192}
+			near := func() int { // a lattice coordinate inside the window, often a hair away from a tile edge
+				t := c.rng.Intn(3) * 8192
+				switch c.rng.Intn(4) {
+				case 0:
+					return t + 1 + c.rng.Intn(100)
+				case 1:
+					return t + 8192 - 1 - c.rng.Intn(100)
+				}
+				return t + 1 + c.rng.Intn(8190)
+			}
+			x0, x1, y0, y1 := near(), near(), near(), near()
+			if x0 > x1 {
+				x0, x1 = x1, x0
+			}
+			if y0 > y1 {
+				y0, y1 = y1, y0
+			}
+			// lattice y grows southwards: the bound's Min corner is (west, south) = (x0, y1)
+			sw, ok1 := wn.pt([2]int{x0, y1})
+			ne, ok2 := wn.pt([2]int{x1, y0})
+			if !ok1 || !ok2 {
+				continue
+			}
+			e := map[string]interface{}{"k": "bound", "z": z, "u": 8192, "b": [4]int{x0, y0, x1, y1}, "nt": 1}
+			setCurrent("tilecover.Bound", e)
+			var set maptile.Set
+			site := guard(func() {
+				if i%2 == 0 {
+					set = tilecover.Bound(orb.Bound{Min: sw, Max: ne}, maptile.Zoom(z))
+				} else {
+					set, _ = tilecover.Geometry(orb.Bound{Min: sw, Max: ne}, maptile.Zoom(z))
+				}
+			})
+			if site != "" {
+				c.emit(panicEvent("tilecover.Bound", site, e))
+				continue
+			}
+			e["cover"], _ = wn.cover(set)
+			c.emit(e)
+		}
 		// (3) points and collections
 		nq := c.pick(1500, 15000)
 		for i := 0; i < nq; i++ {
 			wn := c14RandWin(c, W)
+			span := W
+			if i%5 == 0 { // the shallow zooms: the window is the whole world
+				z := uint32(c.rng.Intn(3))
+				wn = c14Win{z: z, w: 1 << z}
+				span = wn.w
+			}
 			var lps [][2]int
 			for j := 0; j < 1+c.rng.Intn(3); j++ {
-				lps = append(lps, [2]int{8 + 16*c.rng.Intn(W*4), 8 + 16*c.rng.Intn(W*4)}) // away from tile edges
+				lps = append(lps, [2]int{8 + 16*c.rng.Intn(span*4), 8 + 16*c.rng.Intn(span*4)}) // away from tile edges
 			}
 			ps, ok := wn.pts(lps)
 			if !ok {
@@ -428,6 +494,7 @@ func init() {
 		}
 		// (4) MergeUp: every subset of the 16 zoom-2 tiles (thorough) / a seeded 4096 of them (quick), every
 		// min zoom, plus seeded zoom-4 sets built from blocks; each repeated so that Go's map order varies
+		mergeScratch := maptile.Set{}
 		merge := func(z int, tiles [][3]int, min int) {
 			e := map[string]interface{}{"k": "merge", "z": z, "min": min, "in": tiles, "nt": 1}
 			setCurrent("tilecover.MergeUp", e)
@@ -435,6 +502,16 @@ func init() {
 			site := guard(func() {
 				for rep := 0; rep < 4; rep++ {
 					set := maptile.Set{}
+					if rep == 3 {
+						// the caller's scratch map: it still holds the keys of earlier covers (other zooms too), all false
+						if len(mergeScratch) > 300 {
+							mergeScratch = maptile.Set{}
+						}
+						for k := range mergeScratch {
+							mergeScratch[k] = false
+						}
+						set = mergeScratch
+					}
 					for _, t := range tiles {
 						set[maptile.New(uint32(t[0]), uint32(t[1]), maptile.Zoom(t[2]))] = true
 					}
@@ -559,19 +636,37 @@ func c14Line(c *ctx, wn c14Win, paths [][][2]int, fn string) {
 	c.emit(e)
 }
 
-func c14Poly(c *ctx, wn c14Win, poly [][][2]int, fn string) {
-	var p orb.Polygon
-	for _, r := range poly {
-		ps, ok := wn.pts(append(append([][2]int{}, r...), r[0])) // explicitly closed ring
-		if !ok {
-			return
+func c14Poly(c *ctx, wn c14Win, poly [][][2]int, fn string, more ...[][][2]int) {
+	mk := func(poly [][][2]int) (orb.Polygon, bool) {
+		var p orb.Polygon
+		for _, r := range poly {
+			ps, ok := wn.pts(append(append([][2]int{}, r...), r[0])) // explicitly closed ring
+			if !ok {
+				return nil, false
+			}
+			p = append(p, orb.Ring(ps))
 		}
-		p = append(p, orb.Ring(ps))
+		return p, true
+	}
+	p, ok := mk(poly)
+	if !ok {
+		return
 	}
 	polys := [][][][2]int{poly}
 	if fn == "Ring" {
 		p = p[:1]
 		polys = [][][][2]int{{poly[0]}}
+	}
+	mpoly := orb.MultiPolygon{p}
+	if fn == "MultiPolygon" { // further members, which may overlap the first or lie inside it: the cover is the union
+		for _, m := range more {
+			q, ok := mk(m)
+			if !ok {
+				return
+			}
+			mpoly = append(mpoly, q)
+			polys = append(polys, m)
+		}
 	}
 	e := map[string]interface{}{"k": "poly", "fn": fn, "z": wn.z, "w": wn.w, "u": wn.units(), "polys": polys, "err": 0}
 	setCurrent("tilecover."+fn, e)
@@ -584,7 +679,7 @@ func c14Poly(c *ctx, wn c14Win, poly [][][2]int, fn string) {
 		case "Ring":
 			set, err = tilecover.Ring(p[0], maptile.Zoom(wn.z))
 		case "MultiPolygon":
-			set, err = tilecover.MultiPolygon(orb.MultiPolygon{p}, maptile.Zoom(wn.z))
+			set, err = tilecover.MultiPolygon(mpoly, maptile.Zoom(wn.z))
 		default:
 			set, err = tilecover.Geometry(p, maptile.Zoom(wn.z))
 		}
